@@ -15,6 +15,7 @@ import bitcoinlib.wallets as bw
 from bitcoinlib.wallets import Wallet, WalletError
 from bitcoinlib.transactions import Transaction, TransactionError, Output, Input
 from bitcoinlib.keys import HDKey, Key, Address
+from bitcoinlib.values import Value
 from bitcoinlib.db import DbTransactionOutput, DbTransaction
 
 # the sqlite files of the cases are scratch copies: no fsync per commit (durability is of no interest here; utxos_update
@@ -122,6 +123,25 @@ def _randint(a, b):
 random.randint = _randint
 
 
+_real_shuffle = random.shuffle
+
+
+def _shuffle(lst, *a, **k):
+    """environment stub for random_output_order: positions are shuffled by the real generator; outputs to change keys keep
+    their key order among themselves, so the wallet stores its own output rows of a broadcast transaction in change-key
+    order (the order the model inserts them in; it decides ties of later selections)"""
+    ch = [o for o in lst if isinstance(o, Output) and o.change]
+    _real_shuffle(lst, *a, **k)
+    if len(ch) > 1:
+        it = iter(ch)
+        for i, o in enumerate(lst):
+            if isinstance(o, Output) and o.change:
+                lst[i] = next(it)
+
+
+random.shuffle = _shuffle
+
+
 def _dirichlet(alpha, size=None):
     k = len(alpha)
     w = (list(State.weights) + [1] * k)[:k]
@@ -224,9 +244,28 @@ def recipients(tok, net):
     if tok == '-':
         return out
     for s in tok.split(';'):
-        h, a, c = s.split(':')
+        h, a, c = s.split(':')[:3]
+        form = s.split(':')[3] if s.count(':') >= 3 else ''
         addr = script_to_address(bytes.fromhex(h), net)
-        if c == '1':
+        if form:
+            # the amount in another accepted form: s/v = value string / Value object in the (address, amount) tuple,
+            # S/V/I = value string / Value object / int in an Output object, f = float holding the whole number
+            how, text = form[0], bytes.fromhex(form[1:]).decode('utf8')
+            if how == 's':
+                out.append((addr, text))
+            elif how == 'v':
+                out.append((addr, Value(text, network=net)))
+            elif how == 'f':
+                out.append((addr, float(int(a))))
+            elif how == 'S':
+                out.append(Output(text, address=addr, network=net))
+            elif how == 'V':
+                out.append(Output(Value(text, network=net), address=addr, network=net))
+            elif how == 'I':
+                out.append(Output(int(a), address=addr, network=net))
+            else:
+                raise ValueError('amount form')
+        elif c == '1':
             out.append(Output(int(a), address=addr, change=True, network=net))
         else:
             out.append((addr, int(a)))
@@ -421,6 +460,8 @@ class Hist:
         self.addr_of = {}                   # id -> address (outputs of own transactions)
         self.next = H_BASE
         self.last = None                    # (tx object, account, base change index)
+        self.sent = {}                      # position of the operation -> transaction object it broadcast
+        self.gone = set()                   # txids the adapter knows to be deleted / replaced
         self.keyid = {}
         self.accounts = sorted(set(self.info['accts']))
         self._pk = None
@@ -619,6 +660,8 @@ def hist_op(h, f, line, pos):
             main, extra, base = h.tx_answer(t, acct or 0, k == 'c')
             if k == 's':
                 h.last = (t, acct or 0, base)
+                if t.pushed:
+                    h.sent[pos] = t.txid
             return main, extra
         except Exception as e:
             return err_token(e), '-'
@@ -635,6 +678,8 @@ def hist_op(h, f, line, pos):
                           broadcast=(f[13] == '1'), replace_by_fee=(f[10] == '1'))
             main, extra, base = h.tx_answer(t, acct or 0, False)
             h.last = (t, acct or 0, base)
+            if t.pushed:
+                h.sent[pos] = t.txid
             return main, extra
         except Exception as e:
             return err_token(e), '-'
@@ -665,6 +710,31 @@ def hist_op(h, f, line, pos):
     if k == 'r':
         h.reopen()
         return 'R', '-'
+    if k == 'd':
+        # d~pos~via: delete the transaction operation number pos broadcast, through Wallet.transaction_delete (via w) or
+        # WalletTransaction.delete on a freshly loaded object (via o)
+        ent = h.sent.get(int(f[1]))
+        if ent is None:
+            return 'NOTX', '-'
+        txid = ent if isinstance(ent, str) else ent.txid
+        try:
+            if f[2] == 'o' and txid not in h.gone:
+                wt = h.w.transaction(txid)
+                if wt is None:
+                    return 'NOTX', 'txid=%s' % txid
+                wt.delete()
+            else:
+                h.w.transaction_delete(txid)
+        except WalletError as e:
+            if 'not found in this wallet' in str(e):
+                return 'NOTX', 'txid=%s' % txid
+            return err_token(e), '-'
+        h.gone.add(txid)
+        for key in [x for x in h.ids if x[0] == txid]:
+            h.addr_of.pop(h.ids.pop(key), None)
+        if h.last is not None and h.last[0].txid == txid:
+            h.last = None               # the object at hand describes a transaction that is not stored any more
+        return 'D', 'txid=%s' % txid
     if k == 'b':
         # b~farg~earg~bc
         if h.last is None:
@@ -688,12 +758,15 @@ def hist_op(h, f, line, pos):
                 o._c07_added = True
         if was_pushed:
             # the wallet has dropped the replaced transaction: its outputs do not exist any more
+            h.gone.add(old_txid)
             for key in [x for x in h.ids if x[0] == old_txid]:
                 h.addr_of.pop(h.ids.pop(key), None)
         toks, _ = h.labels(t, acct, base)
         pushed_now = f[3] == '1' and t.pushed and not t.error
         pre['sg'] = 1 if t.verified else 0
         new = h.record_broadcast(t, toks) if pushed_now else '-'
+        if pushed_now:
+            h.sent[pos] = t.txid
         ii = ['%d' % h.ids.get((i.prev_txid.hex(), i.output_n_int), -1) for i in t.inputs]
         main = 'OK fee=%d in=%s out=%s pushed=%d' % (t.fee, ','.join(ii) or '-', ';'.join(toks) or '-', 1 if pushed_now else 0)
         try:
